@@ -53,13 +53,17 @@ Proof. vm_compute. repeat split. Qed.
    esds -- a DecSpecificInfo size field of eleven bytes `81 80*9 02` whose leading group overflows readSizeSize's uint64
    (finding C01-K77): sizeFieldSizeMinus1 is kept, the lost bits are not, the encoder writes 80 for the leading group;
    sgpd -- the reserved byte of a seig entry (0x55 here) is skipped and written as 0 (ISO reserved, but the byte-granular
-   don't-care list cannot name it: its offset depends on the entries before it) *)
+   don't-care list cannot name it: its offset depends on the entries before it); captured, no guard any more *)
 Definition w_esds_overflow : list N := [0; 0; 0; 49; 101; 115; 100; 115; 0; 0; 0; 0; 3; 35; 0; 1; 0; 4; 27; 64; 21; 0; 0; 0; 0; 1; 244; 0; 0; 1; 244; 0; 5; 129; 128; 128; 128; 128; 128; 128; 128; 128; 128; 2; 17; 144; 6; 1; 2].
 Definition w_sgpd_seig_rsv : list N := [0; 0; 0; 44; 115; 103; 112; 100; 1; 0; 0; 0; 115; 101; 105; 103; 0; 0; 0; 20; 0; 0; 0; 1; 85; 0; 1; 8; 0; 1; 2; 3; 4; 5; 6; 7; 8; 9; 10; 11; 12; 13; 14; 15].
 Lemma esds_overflow_refuted : refutes w_esds_overflow [(n_esds, RGuard); (n_esds, RRsv false 2)].
 Proof. refute w_esds_overflow. Qed.
-Lemma sgpd_seig_rsv_refuted : refutes w_sgpd_seig_rsv [(n_sgpd, RGuard); (n_sgpd, RRsv true 0)].
+Lemma sgpd_seig_rsv_refuted : refutes w_sgpd_seig_rsv [(n_sgpd, RRsv true 0)].
 Proof. refute w_sgpd_seig_rsv. Qed.
+(* since the third round the byte is captured and sgpd has no guard: this input is exact, i.e. inside C01_fixpoint *)
+Lemma sgpd_seig_rsv_exact : exact_box (treeof w_sgpd_seig_rsv) = true /\ decode w_sgpd_seig_rsv = Ok (treeof w_sgpd_seig_rsv, []) /\
+  raw_box true (treeof w_sgpd_seig_rsv) = Ok w_sgpd_seig_rsv.
+Proof. vm_compute. repeat split. Qed.
 
 (* dac3 (with two initial zero bytes) and dec3 (two substreams, the second with dependent substreams and ChanLoc, one Reserved
    byte): typed, exact, fixed points; and what their guards exclude *)
